@@ -673,12 +673,14 @@ class JmpPE(ArmTr):
         if pat[0] == 'ppath':
             if pat[1] in ('true', 'false'):
                 return v is (pat[1] == 'true')
-            if pat[1][0].islower():          # binding
+            if '::' not in pat[1] and pat[1][0].islower():          # binding
                 self.cenv[pat[1]] = v
                 return True
             return self.ceval(('path', pat[1])) == v
         if pat[0] == 'ptuple':
             return isinstance(v, tuple) and len(v) == len(pat[1]) and all(self.pmatch(p, x) for p, x in zip(pat[1], v))
+        if pat[0] == 'por':
+            return any(self.pmatch(p, v) for p in pat[1])
         raise Unsupported("jump arm: pattern %s" % pat[0])
 
     def choose(self, e):
@@ -698,7 +700,22 @@ class JmpPE(ArmTr):
             while b[0] == 'block' and len(b[1]) == 1 and b[1][0][0] == 'tail':
                 b = b[1][0][1]
             if b[0] == 'block':
-                raise Unsupported("jump arm: branch is not a single expression")
+                saved = dict(self.env)
+                r = None
+                for st in b[1]:
+                    if st[0] == 'let' and st[1][0] == 'ppath':
+                        t, w = self.value(st[3])
+                        vn = self.fresh(st[1][1])
+                        self.lets.append((vn, t, 'let'))
+                        self.env[st[1][1]] = (vn, w)
+                    elif st[0] == 'tail':
+                        r = self.value(st[1])
+                    else:
+                        raise Unsupported("jump arm: statement in a branch")
+                self.env = saved
+                if r is None:
+                    raise Unsupported("jump arm: branch without value")
+                return r
             return self.value(b)
         if e[0] == 'mcall' and e[1][0] == 'mcall' and e[1][2] == 'ins' and e[2] == 'icmp' and e[3][0][0] == 'path' and e[3][0][1] in self.cenv:
             cc = self.cenv[e[3][0][1]]
@@ -796,4 +813,147 @@ def gen_cljmp(src_dir):
         chain = 'if sel_ =? %s then gen_cl_jmp_%s insn rdst rsrc else\n  %s' % (n, n, chain)
     out.append("(* the value brif tests: the branch to the jump target is taken iff it is non-zero *)\n"
                "Definition gen_cl_jmp (sel_ : Z) (insn : insn) (rdst rsrc : Z) : Z :=\n  %s.\n" % chain)
+    return ''.join(out)
+
+
+# ------------------------------------------------------------------ src/cranelift.rs: the memory arms (access descriptors)
+
+class MemPE(JmpPE):
+    """partial evaluation of a memory arm for one opcode: yields the access performed through reg_load / reg_store /
+    reg_atomic_add (width, base value, offset, stored / added value) and, for loads, how the loaded value reaches the
+    destination register"""
+
+    def ceval(self, e):
+        while e[0] == 'paren':
+            e = e[1]
+        if e[0] == 'path' and e[1] in IR_TYPES:
+            return ('ty', IR_TYPES[e[1]])
+        if e[0] == 'macro' and e[1] == 'unreachable':
+            raise Unsupported("unreachable arm taken")
+        return JmpPE.ceval(self, e)
+
+    def width(self, e):
+        s = show(e)
+        if s in self.cenv and isinstance(self.cenv[s], tuple) and self.cenv[s][0] == 'ty':
+            return self.cenv[s][1]
+        return JmpPE.width(self, e)
+
+    def run_mem(self, sts):
+        access = None
+        result = None      # (term over `loaded`, reg) for loads
+        for st in sts:
+            if st[0] == 'let' and st[1][0] == 'ppath':
+                name, e = st[1][1], st[3]
+                # Rust-level constants first
+                try:
+                    v = self.ceval(e)
+                    if isinstance(v, tuple) and v[0] == 'body':
+                        self.cenv[name] = self.ceval(v[1])
+                    else:
+                        self.cenv[name] = v
+                    continue
+                except Unsupported:
+                    pass
+                if e[0] == 'mcall' and show(e[1]) == 'self' and e[2] == 'reg_load':
+                    args = e[3]
+                    w = self.width(args[1])
+                    b, _ = self.value(args[2])
+                    access = ('0', w // 8, b, self.scal(args[3]), '0')
+                    self.env[name] = ('loaded', w)
+                    self.inline = True           # what follows depends on the loaded value: kept inside a_res
+                    continue
+                t, w = self.value(e)
+                if getattr(self, 'inline', False):
+                    self.env[name] = (t, w)
+                    continue
+                vname = self.fresh(name)
+                self.lets.append((vname, t, 'let'))
+                self.env[name] = (vname, w)
+                continue
+            if st[0] in ('stmt', 'tail'):
+                e = st[1]
+                if e[0] == 'mcall' and show(e[1]) == 'self' and e[2] in ('reg_store', 'reg_atomic_add'):
+                    args = e[3]
+                    w = self.width(args[1])
+                    b, _ = self.value(args[2])
+                    v, wv = self.value(args[4])
+                    if wv != w:
+                        raise Unsupported("stored value of width %d in an access of width %d" % (wv, w))
+                    access = ('1' if e[2] == 'reg_store' else '2', w // 8, b, self.scal(args[3]), v)
+                    continue
+                if e[0] == 'mcall' and show(e[1]) == 'self' and e[2].startswith('set_dst'):
+                    t, w = self.set_dst(e[2], e[3])
+                    result = (t, 'dst')
+                    continue
+                if e[0] == 'mcall' and show(e[1]) == 'bcx' and e[2] == 'def_var':
+                    tgt, val = e[3]
+                    s = show(tgt).replace(' ', '').replace('(', '').replace(')', '')
+                    if s != 'self.registers[0]':
+                        raise Unsupported("def_var of %s" % s)
+                    t, w = self.value(val)
+                    result = (t, 'r0')
+                    continue
+            raise Unsupported("memory arm: statement at line %s" % (st[2] if st[0] != 'let' else st[4]))
+        if access is None:
+            raise Unsupported("memory arm without access")
+        kind, nbytes, base, off, val = access
+        res = 'fun loaded : Z => %s' % (result[0] if result else 'loaded')
+        target = '10' if result is None else ('0' if result[1] == 'r0' else '(dst insn)')
+        body = '{| a_kind := %s; a_bytes := %d; a_base := %s; a_off := %s; a_val := %s; a_res := %s; a_target := %s |}' % (
+            kind, nbytes, base, off, val, res, target)
+        out = body
+        for v, t, k in reversed(self.lets):
+            out = '(let %s := %s in %s)' % (v, t, out)
+        return out
+
+    def value(self, e):
+        while e[0] == 'paren':
+            e = e[1]
+        if e[0] == 'mcall' and show(e[1]) == 'bcx' and e[2] == 'use_var' and show(e[3][0]).replace(' ', '') == 'self.mem_start':
+            return 'mem_start', 64
+        if e[0] == 'mcall' and e[1][0] == 'mcall' and e[1][2] == 'ins' and e[2] == 'iconst' and show(e[3][0]) == 'self.isa.pointer_type()':
+            return '(ir_iconst 64 %s)' % self.scal(e[3][1]), 64
+        return JmpPE.value(self, e)
+
+
+def gen_clmem(src_dir):
+    env, _ = U.read_consts(src_dir)
+    toks = U.load(src_dir, 'cranelift.rs')
+    out = [U.HDR % 'src/cranelift.rs (translate_program: the access made by every load / store / atomic-add arm, one opcode at a time)',
+           "From RbpfV Require Import Ebpf ClirSem.\nFrom RbpfV.gen Require Import Opcodes.\n\n"]
+    _, fbody = R.parse_fn(toks, 'translate_program')
+    arms = []
+
+    def walk(e):
+        if isinstance(e, tuple) and e and e[0] == 'match' and show(e[1]) == 'insn.opc' and len(e[2]) > 50:
+            arms.extend(e[2])
+            return
+        if isinstance(e, (tuple, list)):
+            for x in e:
+                walk(x)
+    walk(fbody)
+    names = []
+    for pat, guard, body, ln, attrs in arms:
+        alts = pat[1] if pat[0] == 'por' else [pat]
+        ops = []
+        for a in alts:
+            if a[0] == 'ppath':
+                n = a[1].split('::')[-1]
+                if n in env and (env[n][1] & 7) in (0, 1, 2, 3) and env[n][1] != 0x18:
+                    ops.append(n)
+        if not ops:
+            continue
+        if len(ops) != len(alts):
+            raise Unsupported("memory opcodes share an arm with other opcodes")
+        for n in ops:
+            pe = MemPE(toks, env, env[n][1])
+            term = pe.run_mem(list(body[1]))
+            out.append("Definition gen_cl_mem_%s (insn : insn) (rdst rsrc mem_start : Z) : claccess :=\n  %s.\n\n" % (n, term))
+            names.append(n)
+    if len(names) != 22:
+        raise Unsupported("%d memory opcodes recognised (22 expected): %s" % (len(names), names))
+    chain = '{| a_kind := (-1); a_bytes := 0; a_base := 0; a_off := 0; a_val := 0; a_res := (fun x => x); a_target := 0 |}'
+    for n in reversed(names):
+        chain = 'if sel_ =? %s then gen_cl_mem_%s insn rdst rsrc mem_start else\n  %s' % (n, n, chain)
+    out.append("Definition gen_cl_mem (sel_ : Z) (insn : insn) (rdst rsrc mem_start : Z) : claccess :=\n  %s.\n" % chain)
     return ''.join(out)
